@@ -75,7 +75,7 @@ def mk(rng, i, inst, how, victims=1):
     return dict(i=i, J=J, N=N, ncalls=ncalls, managed=rng.random() < 0.5, batch_size=rng.choice([1, 1, 2]),
                 pre_dispatch=rng.choice(["2*n_jobs", "all"]), dur=0.02,
                 fault=dict(call=call, instant=inst, how=how, victims=victims, victim_tasks=sorted(rng.sample(range(N), victims)),
-                           delay=rng.choice([0.0, 0.005, 0.02, 0.05])))
+                           delay=rng.choice([0.0, 0.005, 0.02, 0.05]), settle=rng.choice([0.0, 0.005, 0.02, 0.05, 0.1, 0.3])))
 
 
 def same_stacks(st):
